@@ -90,6 +90,24 @@ pub fn run(s: &mut Session, ctx: &Ctx) {
             let sd = (n as f64 * p * (1.0 - p)).sqrt();
             (count as f64 - mean).abs() <= 12.0 * sd + 1.0
         };
+        if kind == "vivid" {
+            // fine histogram (one-degree sectors) over a long uniform stream, implementation only:
+            // a hue direction that is produced twice as often as the others shows here
+            let nfine: u64 = if ctx.thorough { 2_000_000 } else { 400_000 };
+            let log = Rc::new(RefCell::new(Vec::<u64>::new()));
+            let mut rng = LogRng { kind: 0, state: Rng::new(seedgen.next()), counter: 0, log: log.clone() };
+            let mut fine = [0u64; 360];
+            for _ in 0..nfine {
+                log.borrow_mut().clear();
+                let c = generate(kind, &mut rng);
+                let hh = c.to_hsla().h;
+                fine[(hh as usize) % 360] += 1;
+            }
+            s.count_case("", true);
+            for (i, c) in fine.iter().enumerate() {
+                s.check(within(*c, nfine, 1.0 / 360.0), "hue-degrees-equally-frequent", "strategies::Vivid", || format!("hue in [{}, {}) over {} uniform draws", i, i + 1, nfine), || format!("{} hits, expected about {}", c, nfine / 360));
+            }
+        }
         match kind {
             "vivid" | "lch_hue" => {
                 for (i, c) in hue_sector.iter().enumerate() {
